@@ -49,9 +49,11 @@ def check_record(args):
             return out
         m.compute_impedance_matrix()
         Z = np.array(m.Z)
-        E = geo.surrogate_matrix(2 * math.pi / lam)
+        E, scale = geo.surrogate_matrix(2 * math.pi / lam, with_scale=True)
         out['n'] = N * N
-        scale = np.abs(E).max() or 1.0
+        # "of the magnitude of the potential terms the entry is composed of": entries of coincident wires
+        # cancel to rounding noise, max |Z| is no scale then
+        scale = max(scale, np.abs(E).max()) or 1.0
         err = np.abs(Z - E) / scale
         if err.max() > 1e-10:
             i, j = np.unravel_index(err.argmax(), err.shape)
